@@ -367,8 +367,19 @@ def check_assembly(run, pkg, attrs):
             d = (ex(pa[0][2]), ex(pa[0][3]))
             # the row picked out of the (all particles - particle i) displacement array must be that of the loop's j
             ok_rv = tri(True if d in ((("sub", pos, I), pos), (pos, ("sub", pos, I))) else None, eqv(rv[2], J))
+    if pa is None and rv is not None:
+        # no call of remove_pbc: an inline re-implementation is decided by the shared machinery (frame typing, algebra, concrete
+        # tilted cells); its verdict is reported by the driver under "inline minimum image"
+        from .grlib import find_inline_image
+        v_img = find_inline_image(ex(rv))
+        if v_img[0] == "ok":
+            ok_rv = True
+            detail = "inline minimum image verified: " + detail
+        elif v_img[0] == "bad":
+            ok_rv = False
+            detail = "inline minimum image refuted: " + str(v_img[1])[:200]
     run.ob("R-PBC", fq, "pair-vector", ok_rv, "pair_matrix receives the minimum-image vector between particles i and j", detail,
-           witness=None if ok_rv else "block computed from the vector of another pair", loc=fi.loc(), sound=True)
+           witness=None if ok_rv else (detail if detail.startswith("inline minimum image refuted") else "block computed from the vector of another pair"), loc=fi.loc(), sound=True)
     if pa:
         okh = tri(eqv(ex(pa[1]), ("attr", SNAP, "hmatrix")), eqv(ex(pa[2]), ("sym", "ppp")) if pa[2] is not None else False)
         run.ob("R-PBC", fq, "cell", okh, "minimum image uses the snapshot's cell and the instance mask", f"{show(ex(pa[1]))[:40]}, {show(ex(pa[2]))[:30] if pa[2] else None}",
